@@ -194,6 +194,17 @@ def shrink(c):
             yield d
 
 
+# functions of the implementation this property is anchored in: their line coverage under the correspondence cases is
+# measured on the staged copy and reported in the evidence (implementation_line_coverage)
+ANCHORS = [
+    "datascope/utility/provenance.py:Provenance.fork",
+    "datascope/utility/provenance.py:Provenance.__getitem__",
+    "datascope/utility/provenance.py:Provenance.__init__",
+    "datascope/utility/provenance.py:Provenance.join",
+    "datascope/utility/provenance.py:Units.union",
+    "datascope/utility/provenance.py:Units.prefix",
+]
+
 MANIFEST = {
     "text": "Proof: C12_fork, C12_select (slice / index list / mask), C12_default, C12_grouped + C12_grouped_units "
             "(any integer identifiers; units = sorted distinct identifiers; row present iff the unit named by its "
